@@ -74,7 +74,32 @@ def model_specs():
     num["initial_concentration"]["j"]["compartments"] = ["1", "2", "3"]
     num["initial_concentration"]["j"]["exclude_from_normalize"] = ["3"]
     out["numeric_compartments"] = num
+    # labels that YAML 1.1 would read as booleans (they are labels: strings)
+    yn = copy.deepcopy(base)
+    ren = {"s1": "s1", "s2": "yes", "s3": "no"}
+    yn["k_matrix"] = {"km": {"matrix": {"<-".join(ren[x] for x in k.split("<-")): v for k, v in base["k_matrix"]["km"]["matrix"].items()}}}
+    yn["initial_concentration"]["j"]["compartments"] = ["s1", "yes", "no"]
+    yn["initial_concentration"]["j"]["exclude_from_normalize"] = ["no"]
+    yn["dataset"] = {"on": copy.deepcopy(base["dataset"]["d1"]), "off": copy.deepcopy(base["dataset"]["d1"])}
+    yn["weights"] = [{"datasets": ["on"], "value": 0.5}]
+    yn["clp_constraints"] = [{"type": "zero", "target": "yes", "interval": (600.0, 650.0)}]
+    out["boolean_like_labels"] = yn
     return out
+
+
+def string_leaves_preserved(spec, loaded, path=()):
+    """every string of the specification the model was loaded from is still that string in the loaded model"""
+    bad = []
+    if isinstance(spec, dict) and isinstance(loaded, dict):
+        for k, v in spec.items():
+            if k in loaded:
+                bad += string_leaves_preserved(v, loaded[k], path + (k,))
+    elif isinstance(spec, (list, tuple)) and isinstance(loaded, (list, tuple)) and len(spec) == len(loaded):
+        for i, (a, b) in enumerate(zip(spec, loaded)):
+            bad += string_leaves_preserved(a, b, path + (i,))
+    elif isinstance(spec, str) and not (isinstance(loaded, str) and loaded == spec):
+        bad.append((list(map(str, path)), spec, repr(loaded)))
+    return bad
 
 
 def objective_of(model, values, datasets):
@@ -113,6 +138,10 @@ def case_model(case):
     with warnings.catch_warnings():
         warnings.simplefilter("ignore")
         model = B.make_model(md) if case["route"] == "superset_class" else load_via_yml(md)
+    if case["route"] != "superset_class":
+        lost = string_leaves_preserved({k: v for k, v in md.items() if k != "k_matrix"}, model.as_dict())
+        if lost:
+            vs.append(V("label-of-the-specification-changed-by-loading", name=case["name"], first=lost[0], count=len(lost)))
     labels = c20.all_parameter_labels(md)
     values = c20.values_for(labels)
     for l in values:
@@ -463,6 +492,10 @@ def case_ascii(case):
     from glotaran.io import save_dataset
 
     da = make_dataset(case)
+    if case.get("data_dtype") == "int":  # photon counts: integer data on fractional axes
+        da = (da * 1000.0 / max(1e-300, float(np.abs(da.values).max()))).round().astype(np.int64)
+    elif case.get("data_dtype") == "float32":
+        da = da.astype(np.float32)
     fmt = case["number_format"]
     layout = DataFileType.time_explicit if case["layout"] == "time" else DataFileType.wavelength_explicit
     vs = []
@@ -492,7 +525,7 @@ def case_ascii(case):
             elif not np.allclose(gv, da.values, rtol=rel, atol=0):
                 t_ok = gv.shape == da.values.T.shape and np.allclose(gv, da.values.T, rtol=rel, atol=0)
                 vs.append(V("ascii-data-values-changed", layout=case["layout"], transposed=bool(t_ok)))
-    return core.ok(key=[case["shape"], case["coords"], case["layout"], fmt], outcome=len(vs), violations=vs)
+    return core.ok(key=[case["shape"], case["coords"], case["layout"], fmt, case.get("data_dtype")], outcome=len(vs), violations=vs)
 
 
 CASE_FUNCS = {"model": case_model, "result": case_result, "netcdf": case_netcdf, "ascii": case_ascii}
@@ -530,6 +563,11 @@ def run(run: core.Run):
         for layout in ("time", "wavelength"):
             for nf in ("%.10e", "%.4e", "%.15e") if not quick else ("%.10e", "%.4e"):
                 asc.append(dict(c, layout=layout, number_format=nf))
+    for c in dsets:  # integer and single-precision data on fractional / negative axes
+        if c["coords"] in ("fractions", "negative") and c["scale"] == "unit":
+            for layout in ("time", "wavelength"):
+                for dt in ("int", "float32"):
+                    asc.append(dict(c, layout=layout, number_format="%.10e" if dt == "int" else "%.6e", data_dtype=dt))
     run.map("ascii", asc)
     run.bounds = {"models": len(model_specs()), "result_configurations": len(res), "saving_options": "data_filter x report", "targets": 3,
                   "dataset_shapes": shapes, "coordinate_kinds": 5, "ascii_number_formats": 2 if quick else 3}  # fmt: skip
